@@ -12,6 +12,7 @@ RULE = ('Random interleavings of order submissions (1-4 portfolios, 1-5 quoted a
         'transactions); pending queue == unfilled orders after every request. Non-trivial: some order waited through '
         '>=1 out-of-hours update and some batch had both sides; distinct = distinct (request kind, side) sequence.'
         ' Order ids may repeat across portfolios (fills are matched by (portfolio, id)).')
+RULE += " Per update also: every portfolio's holdings move by exactly the quantities filled in it, and across the whole account (all portfolios, sequence of delivered transactions) every sell precedes every buy."
 ASSUMPTIONS = [
     'times are non-decreasing and every ordered asset has a quote (the quantifier); UTC timestamps',
     'fill order across different portfolios is not observable through the API and is only recorded',
